@@ -506,6 +506,19 @@ func (e *engine) replay(path string) error {
 		}
 	}
 	defer r.close()
+	if os.Getenv("VERIF_C05_TRACE") != "" {
+		for _, x := range r.imgs {
+			var fs []string
+			for _, f := range x.walFiles() {
+				fs = append(fs, fmt.Sprintf("%s:%d/%d", f.Name[12:16], len(f.Data), f.Size))
+			}
+			pd := -1
+			if x.PrevDur != nil {
+				pd = x.PrevDur.Seq
+			}
+			fmt.Printf("  img #%d call %d op %s%s nrecs=%d killMin=%d prevDurMin=%d prevDur=#%d dur=%v opt=%v cut=%v files=%v\n", x.Seq, x.Call, x.Op, midName(x), x.NRecs, x.KillMin, x.PrevDurMin, pd, x.Dur, x.Opt, x.cut, fs)
+		}
+	}
 	if w.Mode == "live" {
 		if r.liveViol != nil {
 			h.report(r, r.imgs[len(r.imgs)-1], Fault{Kind: "clean"}, "live", nil, w.MinP, r.liveOut, *r.liveViol)
@@ -524,6 +537,23 @@ func (e *engine) replay(path string) error {
 		return fmt.Errorf("replay: image #%d (%q) not produced by the recorded ops (%d images)", w.ImageSeq, w.Mid, len(r.imgs))
 	}
 	im.present = r.present(im)
+	if os.Getenv("VERIF_C05_TRACE") != "" && w.Fault.File != "" {
+		if fi, err := w.Fault.apply(im, im.PrevDur); err == nil {
+			for _, x := range []*Image{im, fi} {
+				fl := x.file(w.Fault.File)
+				fmt.Printf("  frames of %s (size %d, data %d):\n", fl.Name, fl.Size, len(fl.Data))
+				for _, fr := range parseFrames(fl.Data, fl.Size) {
+					if fr.End > w.Fault.Off-200 && fr.Off < w.Fault.Off+300 {
+						b := fl.Data[fr.Off:]
+						if len(b) > 24 {
+							b = b[:24]
+						}
+						fmt.Printf("    [%d,%d) type=%d datalen=%d pad=%d  % x\n", fr.Off, fr.End, fr.Type, fr.DataLen, fr.End-fr.PadOff, b)
+					}
+				}
+			}
+		}
+	}
 	var out Outcome
 	var v verdict
 	switch {
